@@ -58,9 +58,8 @@ def snap_code(rels, par=False):
         row = "t.read().unwrap()" if (is_lat and par) else "t"
         cols = ", ".join("format!(\"{:?}\", %s.%d)" % ("r", i) for i in range(arity))
         lines.append("   { let mut v: Vec<Vec<String>> = p.%s.iter().map(|t| { let r = %s; let c: Vec<String> = vec![%s]; c }).collect();" % (name, row, cols))
-        lines.append("     let n = v.len(); v.sort(); v.dedup();")
         lines.append("     let ts: Vec<String> = v.iter().map(|t| format!(\"[{}]\", t.iter().map(|s| format!(\"{:?}\", s)).collect::<Vec<_>>().join(\",\"))).collect();")
-        lines.append("     parts.push(format!(\"\\\"%s\\\":{{\\\"len\\\":{},\\\"tuples\\\":[{}]}}\", n, ts.join(\",\"))); }" % name)
+        lines.append("     parts.push(format!(\"\\\"%s\\\":[{}]\", ts.join(\",\"))); }" % name)
     lines.append("   format!(\"{{{}}}\", parts.join(\",\"))")
     lines.append("}")
     return "\n".join(lines)
@@ -208,14 +207,17 @@ def build_and_run(tag, jobs, nbins=None, features=(), run_timeout=120, build_tim
 
 
 def canon_snap(snap):
-    """{rel: {'len': n, 'tuples': [[str..]..]}} -> {rel: (len, sorted list of tuples of python values)}"""
+    """{rel: [[str..]..] rows in order} -> {rel: (len, sorted distinct tuples of python values)}"""
     out = {}
-    for rel, v in snap.items():
-        ts = []
-        for t in v["tuples"]:
-            ts.append(tuple(_val(s) for s in t))
-        out[rel] = (v["len"], sorted(set(ts), key=repr))
+    for rel, rows in snap.items():
+        ts = [tuple(_val(s) for s in t) for t in rows]
+        out[rel] = (len(ts), sorted(set(ts), key=repr))
     return out
+
+
+def rows_snap(snap):
+    """{rel: rows in order as tuples of python values}"""
+    return {rel: [tuple(_val(s) for s in t) for t in rows] for rel, rows in snap.items()}
 
 
 def _val(s):
@@ -238,7 +240,7 @@ def front_run(records, timeout=900):
             f.write("@@PROGRAM %s %s\n%s\n" % (i, kind, text))
     if os.path.exists(fout):
         os.remove(fout)
-    env = dict(lib.ENV, VERIF_FRONT_IN=fin, VERIF_FRONT_OUT=fout, CARGO_TARGET_DIR=os.path.join(lib.BUILD, "target_front"))
+    env = dict(lib.ENV, VERIF_FRONT_IN=fin, VERIF_FRONT_OUT=fout, CARGO_TARGET_DIR=os.path.join(lib.BUILD, "target_front" + ("" if lib.REPO == "/repo" else "_" + __import__("hashlib").sha1(lib.REPO.encode()).hexdigest()[:8])))
     with lib.Lock("cargo_front"):
         rc, out = lib.sh(["cargo", "test", "--offline", "-p", "ascent_macro", "--features", "verif_hooks", "verif_front_driver"],
                          cwd=lib.REPO, timeout=timeout, env=env)
